@@ -67,7 +67,14 @@ func (s *Node) Merge(other *Node) {
 	s.AddedKinds = s.AddedKinds.Add(other.AddedKinds...)
 	s.DeletedKinds = s.DeletedKinds.Add(other.DeletedKinds...)
 
-	s.Properties.Merge(other.Properties)
+	if other.Properties != nil {
+		// Entities may be created without properties
+		if s.Properties == nil {
+			s.Properties = NewProperties()
+		}
+
+		s.Properties.Merge(other.Properties)
+	}
 }
 
 func (s *Node) SizeOf() size.Size {
